@@ -207,19 +207,33 @@ def content(k, attr, what):
     return f"file-{attr}-{k}"
 
 
-def build(classes, copy, tmpdir):
+def build(classes, copy, tmpdir, rel=None):
     """Returns (list of real classes or None where creation was rejected, error or None)."""
+    import sys
+    import types
+
     from django.core.exceptions import ImproperlyConfigured
 
     from django_components import Component
 
+    module = "sim.generated"
+    if rel is not None:
+        module = "c16relmod"
+        if module not in sys.modules:
+            mod = types.ModuleType(module)
+            mod.__file__ = os.path.join(tmpdir, "sub", "comp.py")
+            sys.modules[module] = mod
+            os.makedirs(os.path.join(tmpdir, "sub"), exist_ok=True)
+            for name in rel:
+                with open(os.path.join(tmpdir, "sub", name), "w") as f:
+                    f.write("/* " + name + " */")
     real = []
     for i, c in enumerate(classes):
         bases = tuple(real[b] for b in c["bases"]) or (Component,)
         if any(b is None for b in bases):
             real.append(None)
             continue
-        attrs = {"__module__": "sim.generated"}
+        attrs = {"__module__": module}
         m = c["media"]
         if m is not None:
             ma = {}
@@ -277,6 +291,11 @@ def run(ch, params, decoded=False):
     n = len(classes)
     sched_a = draw_schedule(ch, n, params, "a")
     sched_b = draw_schedule(ch, n, params, "b")
+    # relative variant: the classes live in a module whose file is in <components dir>/sub/, and some of the declared
+    # Media files exist next to it -> the library rewrites those paths to "sub/<file>" (lazily, at first access)
+    rel = None
+    if ch.chance(1, 3, "relative_variant"):
+        rel = sorted(set(ch.subset(JS_FILES + CSS_FILES, "rel_file", 1, 2)))
     file_pairs = [(i, a_) for i, c in enumerate(classes) for a_, pk in c["pairs"].items() if pk == 2]
     fault = file_pairs[ch.draw(len(file_pairs), "fault_target")] if file_pairs and ch.chance(1, 3, "file_fault") else None
     tmpdir = tempfile.mkdtemp(prefix="djc-c16-")
@@ -288,7 +307,7 @@ def run(ch, params, decoded=False):
         settings.COMPONENTS = comps
         copies = []
         for copy in (0, 1):
-            real, err = build(classes, copy, tmpdir)
+            real, err = build(classes, copy, tmpdir, rel)
             if err:
                 violations.append({"class": err[0], "fingerprint": [err[0]], "detail": {"what": err[1]}})
                 break
@@ -356,6 +375,11 @@ def run(ch, params, decoded=False):
                 # (a) media model
                 got = observed[0][(ci, "media")]
                 ejs, ecss, lists = expected_media(classes, ci, memo)
+                if rel:
+                    m_ = (lambda f_: "sub/" + f_ if f_ in rel else f_)
+                    ejs = {m_(f_) for f_ in ejs}
+                    ecss = {k_: {m_(f_) for f_ in v_} for k_, v_ in ecss.items()}
+                    lists = [(kind_, med_, [m_(f_) for f_ in l_]) for kind_, med_, l_ in lists]
                 if len(classes[ci]["bases"]) > 1 or (classes[ci]["media"] and isinstance(classes[ci]["media"]["extend"], list)):
                     multi += 1
                 if len(got["js"]) != len(set(got["js"])) or any(len(f) != len(set(f)) for f in got["css"].values()):
@@ -391,14 +415,15 @@ def run(ch, params, decoded=False):
                 if violations:
                     break
         stats["probe:multiple_inheritance_or_extend_list"] = multi
+        stats["probe:relative_media_paths"] = 1 if rel else 0
         stats["probe:rejected_double_definition"] = sum(1 for c in classes if any(pk == 3 for pk in c["pairs"].values()))
     finally:
         shutil.rmtree(tmpdir, ignore_errors=True)
-    key = hashlib.blake2b(json.dumps([classes, sched_a, sched_b, fault]).encode(), digest_size=8).hexdigest()
+    key = hashlib.blake2b(json.dumps([classes, sched_a, sched_b, fault, rel]).encode(), digest_size=8).hexdigest()
     out = {"violations": violations, "key": key,
            "nontrivial": n >= 2 and any(c["media"] and (c["media"]["js"] or c["media"]["css"]) for c in classes) and sched_a != sched_b,
            "stats": stats, "digest": key}
     if decoded or violations:
         out["decoded"] = {"classes": classes, "schedule_a": sched_a, "schedule_b": sched_b,
-                          "fault_file_missing_at_first_access": fault}
+                          "fault_file_missing_at_first_access": fault, "files_next_to_component_module": rel}
     return out
